@@ -5,24 +5,36 @@
 (* Trace_SeqScan (judging the real code).                                   *)
 EXTENDS Integers, Sequences
 
-\* Ground truth: objs[i] = [start, hdrEnd, end] (byte offsets of the first
-\* digit of "N G obj", of the end of that header and of the end of "endobj").
+\* Ground truth: objs[i] = [start, hdrEnd, end, amb, lenEnd] (byte offsets of
+\* the first digit of "N G obj", of the end of that header and of the end of
+\* "endobj"; amb and lenEnd see below).
 \* Observation: res = what SequentialScan returned ("ok" or a failure);
 \* listed = the i reported with ObjStart = objs[i].start; st[i] = "ok" /
 \* "broken" (the Broken flag); val[i] = "v" when FileInfo.Read returned the
 \* value that was written.
 Complete(objs, c, i) == objs[i].end <= c
+\* Where a stream ends.  The body of a stream ends where its /Length says,
+\* provided the length can be known: a direct /Length, or an indirect one
+\* whose object is completely within the available bytes (and names an offset
+\* within them).  Only when the length cannot be known is the end found by
+\* searching for EOL "endstream".  A body that itself contains a line starting
+\* with "endstream" (amb = TRUE) is therefore unambiguous exactly from the
+\* offset lenEnd on (the end of the stream object for a direct /Length, the end
+\* of the object holding the length for an indirect one); for a shorter prefix
+\* nothing is demanded about that stream: what is there is a well-formed
+\* shorter object.
+Judged(objs, c, i) == ~objs[i].amb \/ objs[i].lenEnd <= c
 \* "does not fail outright when at least one complete object is present"
 RefScanReturns(objs, c, r) ==
   (\E i \in 1..Len(objs) : Complete(objs, c, i)) => r = "ok"
 \* "lists every indirect object whose endobj lies within the available bytes
 \*  at its true offset, not marked broken, and reading it yields the value"
 RefListsComplete(objs, c, r, ls, s, v) ==
-  r = "ok" => \A i \in 1..Len(objs) : Complete(objs, c, i) =>
+  r = "ok" => \A i \in 1..Len(objs) : (Complete(objs, c, i) /\ Judged(objs, c, i)) =>
                    /\ i \in ls /\ s[i] = "ok" /\ v[i] = "v"
 \* "incomplete trailing objects are reported as broken"
 RefCutIsBroken(objs, c, r, ls, s) ==
-  r = "ok" => \A i \in 1..Len(objs) : (i \in ls /\ ~Complete(objs, c, i)) => s[i] = "broken"
+  r = "ok" => \A i \in 1..Len(objs) : (i \in ls /\ ~Complete(objs, c, i) /\ ~objs[i].amb) => s[i] = "broken"
 \* a panic is never an acceptable way to fail
 RefNoPanic(r) == r # "panic"
 \* MakeReader may fail (the trailer may be gone), but a Reader it does return
